@@ -47,8 +47,9 @@ def fixtures():
 
 
 class Replayer:
-    def __init__(self, fx, datadir, loopback=False):
+    def __init__(self, fx, datadir, loopback=False, fvar=0):
         self.fx = fx
+        self.fvar = fvar            # which foreign-sid variants this run uses (the case number: same for fake and loopback)
         self.loopback = loopback
         if loopback:
             import fe_loop
@@ -133,11 +134,26 @@ class Replayer:
             self.ev.append({"e": "search", "out": out, "res": res, "d": self.proj()})
         elif sym == "foreign":
             import pickle
-            self.ws.peer_send(fs.msg("f" * 64, "config", pickle.dumps(fx["c2"])))
+            # a sid that is not this connection's: unrelated, or adversarially close to it (same display prefix, one character
+            # off at the end, a proper prefix, an extension, another case, empty), carrying any of the three request types
+            self.nforeign = getattr(self, "nforeign", self.fvar * 5) + 1
+            flip = "0" if sid[-1] != "0" else "1"
+            cands = ["f" * 64, sid[:8] + ("0" if sid[8] != "0" else "1") * 56, sid[:-1] + flip, sid[:32], sid + "0",
+                     sid.upper() if sid.upper() != sid else sid[::-1], "", sid[:8]]
+            fsid = cands[self.nforeign % len(cands)]
+            if fsid == sid:
+                fsid = "f" * 64
+            kind = (self.nforeign // len(cands)) % 3
+            if kind == 0:
+                self.ws.peer_send(fs.msg(fsid, "config", pickle.dumps(fx["c2"])))
+            elif kind == 1:
+                self.ws.peer_send(fs.msg(fsid, "upload_edb", fx["e2"]))
+            else:
+                self.ws.peer_send(fs.msg(fsid, "token", fx["tok"], token_digest=hashlib.sha256(fx["tok"]).digest()))
             await self.settle()
             msgs = [m for m in fs.decode_server_msgs(self.ws.take_outbox()) if m["type"] != "control"]
             out = self.no_reply() if not msgs else ("refused" if all(m.get("ok") is False for m in msgs) else "garbled")
-            self.ev.append({"e": "foreign", "out": out, "d": self.proj()})
+            self.ev.append({"e": "foreign", "out": out, "d": self.proj(), "fv": self.nforeign % len(cands), "kind": kind})
         elif sym == "unknown":
             self.ws.peer_send(fs.msg(sid, "delete", b""))
             await self.settle()
@@ -223,7 +239,7 @@ class Replayer:
 
 def replay(fx, hist, k, loopback=False):
     d = os.path.join(subdir("c10-data"), "%s%d" % ("L" if loopback else "h", k))
-    rp = Replayer(fx, d, loopback)
+    rp = Replayer(fx, d, loopback, fvar=k)
     loop = asyncio.new_event_loop()
     loop.set_exception_handler(lambda l, c: None)
     try:
@@ -245,7 +261,7 @@ def main(argv_tier=None, replay_path=None):
         import json
         with open(replay_path) as fh:
             rp = json.load(fh)
-        ev = replay(fx, rp["history"], 0)
+        ev = replay(fx, rp["history"], int(rp.get("k") or 0))
         verdicts, _ = validate_traces("Trace_ServerSM", [{"tid": "replay", "ev": ev}], consts="CONSTANTS Cfgs = {1,2}\nIdxs = {1,2}\n")
         print(json.dumps(ev, indent=1))
         print(verdicts)
@@ -305,7 +321,7 @@ def main(argv_tier=None, replay_path=None):
     vio_out = []
     for x in viol[:20]:
         p = write_replay(PROP, x["trace"]["tid"], {"history": x["trace"]["history"], "events": x["trace"]["ev"],
-                                                   "verdict": x["verdict"], "seed": seed()})
+                                                   "k": int(x["trace"]["tid"][1:]), "verdict": x["verdict"], "seed": seed()})
         vio_out.append(("step %d %s history=%s" % (x["verdict"]["step"], x["verdict"]["clause"],
                                                     ",".join(x["trace"]["history"])), p))
     vio_out += [("", "")] * max(0, len(viol) - 20)
